@@ -74,19 +74,23 @@ func Balloon.RebuildCache
 // (the explicit "tampered" panic needs a store whose hyper tree names a version
 // beyond the current one; that is outside what a request can cause)
 
+// The history tree is only ever asked for a proof at a version the log has reached (whatever
+// version the request names): its audit-path visitor panics on a node that does not exist.
 func Balloon.QueryDigestMembership
   props C11
-  requires HyperOK(b.hyperTree) && b.historyTree != nil && b.hasherF != nil
+  requires HyperOK(b.hyperTree) && b.historyTree != nil && b.hasherF != nil && pure_fn(b.hasherF)
   may_panic
-  modifies everything
+  modifies everything, proveCalls, lastProveVersion
   ensures isnil(result_1) ==> result_0 != nil && result_0.HyperProof != nil
+  ensures C11/history-proof-within-the-log: proveCalls != old(proveCalls) && old(b.version) >= 1 ==> lastProveVersion <= old(b.version) - 1
 
 func Balloon.QueryDigestMembershipConsistency
   props C11
-  requires HyperOK(b.hyperTree) && b.historyTree != nil && b.hasherF != nil
+  requires HyperOK(b.hyperTree) && b.historyTree != nil && b.hasherF != nil && pure_fn(b.hasherF)
   may_panic
-  modifies everything
+  modifies everything, proveCalls, lastProveVersion
   ensures isnil(result_1) ==> result_0 != nil && result_0.HyperProof != nil
+  ensures C11/history-proof-within-the-log: proveCalls != old(proveCalls) && old(b.version) >= 1 ==> lastProveVersion <= old(b.version) - 1
 
 // C03, C11: a consistency proof is only attempted for 0 <= start <= end < version; any other
 // range in a request is answered with an error (the history tree has no nodes for it: its
